@@ -73,12 +73,15 @@ def inst(v):
     return None if v is None else R.py_instant_us(mkdt(v))
 
 
+ACCTID = st.one_of(ident(22), ident(22), ident(22), st.text("0123456789ABCDEF -", min_size=23, max_size=34).map(str.strip).filter(lambda x: len(x) >= 23 and "  " not in x))
+
+
 REQ = st.one_of(
-    st.builds(lambda a, t, s, e, i: {"k": "stmt", "acctid": a, "accttype": t, "dtstart": s, "dtend": e, "inctran": i}, ident(22), st.sampled_from(ACCTTYPES), DTS, DTS, st.booleans()),
-    st.builds(lambda a, s, e, i: {"k": "ccstmt", "acctid": a, "dtstart": s, "dtend": e, "inctran": i}, ident(22), DTS, DTS, st.booleans()),
-    st.builds(lambda a, s, e, f, i, oo, p, b: {"k": "invstmt", "acctid": a, "dtstart": s, "dtend": e, "dtasof": f, "inctran": i, "incoo": oo, "incpos": p, "incbal": b}, ident(22), DTS, DTS, DTS, st.booleans(), st.booleans(), st.booleans(), st.booleans()),
-    st.builds(lambda a, t, s, e: {"k": "stmtend", "acctid": a, "accttype": t, "dtstart": s, "dtend": e}, ident(22), st.sampled_from(ACCTTYPES), DTS, DTS),
-    st.builds(lambda a, s, e: {"k": "ccstmtend", "acctid": a, "dtstart": s, "dtend": e}, ident(22), DTS, DTS),
+    st.builds(lambda a, t, s, e, i: {"k": "stmt", "acctid": a, "accttype": t, "dtstart": s, "dtend": e, "inctran": i}, ACCTID, st.sampled_from(ACCTTYPES), DTS, DTS, st.booleans()),
+    st.builds(lambda a, s, e, i: {"k": "ccstmt", "acctid": a, "dtstart": s, "dtend": e, "inctran": i}, ACCTID, DTS, DTS, st.booleans()),
+    st.builds(lambda a, s, e, f, i, oo, p, b: {"k": "invstmt", "acctid": a, "dtstart": s, "dtend": e, "dtasof": f, "inctran": i, "incoo": oo, "incpos": p, "incbal": b}, ACCTID, DTS, DTS, DTS, st.booleans(), st.booleans(), st.booleans(), st.booleans()),
+    st.builds(lambda a, t, s, e: {"k": "stmtend", "acctid": a, "accttype": t, "dtstart": s, "dtend": e}, ACCTID, st.sampled_from(ACCTTYPES), DTS, DTS),
+    st.builds(lambda a, s, e: {"k": "ccstmtend", "acctid": a, "dtstart": s, "dtend": e}, ACCTID, DTS, DTS),
 )
 
 
